@@ -146,4 +146,41 @@ theorem tracks_after_reload (ver : FileSt → Ver) (ops : List HOp) (f : FileSt)
     exact lookup_applyMerge_mem c.m (readMap props) k v
       (keysNodup_readMap props (parseProps_ok_nodup f.text props hp)) hkv (readMap_nonempty props k v hkv)
 
+/-! ### an external edit landing in the middle of a reload -/
+
+/-- reload looks at the file when it is `f1` (stat, then read); right after the read the file
+    becomes `f2`.  The code remembers the stamp it took *before* the read (`stampAfter = false`);
+    `stampAfter = true` is the variant that takes a fresh stat after the read. -/
+def reloadRacing (stampAfter : Bool) (c : Cfg) (f1 f2 : FileSt) : Cfg :=
+  let r := reload verFull c (some f1)
+  if stampAfter && r.2 == .loaded then { r.1 with last := verFull f2 } else r.1
+
+theorem reload_last (ver : FileSt → Ver) (c : Cfg) (f : FileSt) : (reload ver c (some f)).1.last = ver f := by
+  by_cases h : c.last = ver f
+  · rw [reload_same_state ver c f h]; exact h
+  · unfold reload
+    simp only [h, beq_iff_eq, if_false]
+    split <;> rfl
+
+/-- with the stamp taken before the read, the next reload loads the edit that raced -/
+theorem reload_race_recovers (c : Cfg) (f1 f2 : FileSt) (props : KV)
+    (hv : verFull f1 ≠ verFull f2) (hp : parseProps f2.text = .ok props) :
+    let c1 := reloadRacing false c f1 f2
+    (reload verFull c1 (some f2)).2 = .loaded ∧
+    (reload verFull c1 (some f2)).1.notified = c1.notified + 1 ∧
+    Reflects (reload verFull c1 (some f2)).1 f2.text := by
+  intro c1
+  have hl : c1.last = verFull f1 := by
+    show (reloadRacing false c f1 f2).last = verFull f1
+    simp [reloadRacing, reload_last]
+  have hne : c1.last ≠ verFull f2 := by rw [hl]; exact hv
+  obtain ⟨h1, h2, _, h4⟩ := reload_loaded verFull c1 f2 props hne hp
+  refine ⟨h1, h2, ?_⟩
+  intro props' hp' k v hkv
+  rw [hp] at hp'
+  cases hp'
+  rw [h4]
+  exact lookup_applyMerge_mem c1.m (readMap props) k v
+    (keysNodup_readMap props (parseProps_ok_nodup f2.text props hp)) hkv (readMap_nonempty props k v hkv)
+
 end Conf
